@@ -296,8 +296,16 @@ def run_shard(spec, ctx):
                 else:
                     mp.metrics(*a, **kw)
             except Exception as e:  # noqa: BLE001
+                # every generated input is valid: the statement's identities are
+                # claimed "for every valid multipitch input", so nothing may be raised
                 ctx.count("driver.raised")
                 ctx.hist("driver.raised", type(e).__name__)
+                ctx.violation("C18/multipitch/raises-on-valid-input/%s" % type(e).__name__,
+                              "raises-on-valid-input", "multipitch.metrics",
+                              "%s: %s on a valid input (%s)" % (type(e).__name__,
+                                                               str(e)[:120], inp["cls"]),
+                              {"kind": "call", "fn": "multipitch.metrics", "args": a,
+                               "kwargs": kw})
     n, problems = shim.fidelity_report()
     if problems:
         ctx.mark_inconclusive("shim fidelity: %r" % problems[:3])
